@@ -150,7 +150,7 @@ def c04(pid, tier, seed):
                             chk.violation(key, f"[{cfg}] {path} written for {ev['rust']} ({inf.get('position')}: {inf.get('text')!r}): {kind}: {detail}",
                                           {"root": ev["rust"], "path": path, "file": f, "info": inf}, tags=tags + [kind])
                     # the string the user wrote arrives unchanged (as the TypeScript parser reads it back)
-                    if inf.get("position") in ("field-rename", "variant-rename", "tag", "content", "struct-tag", "variant-field-rename"):
+                    if inf.get("position") in ("field-rename", "variant-rename", "variant-rename-expr", "tag", "content", "struct-tag", "variant-field-rename"):
                         own = [d for f in ev["files"].values() for d in f.get("decls", []) if d["name"] == ev.get("ident")]
                         if own:
                             chk.add_eval()
